@@ -32,7 +32,7 @@ META = dict(
          "near rule.",
     design_ref="4/C10")
 
-KINDS_Q = ["near", "ladder", "sized", "two", "half", "wrong", "tf5", "spot", "near", "fast"]
+KINDS_Q = ["near", "ladder", "sized", "two", "half", "wrong", "tf5", "spot", "near", "fast", "fast2"]
 
 
 def run(ctx):
